@@ -39,7 +39,8 @@ Definition definition_eqb (descs : bool) (a b : definition) : bool :=
   list_eqb (enumval_eqb descs) (df_enums a) (df_enums b) && list_eqb dirapp_eqb (df_dirs a) (df_dirs b).
 Definition dirdef_eqb (descs : bool) (a b : dirdef) : bool :=
   String.eqb (dd_name a) (dd_name b) && (negb descs || String.eqb (dd_desc a) (dd_desc b)) &&
-  list_eqb String.eqb (dd_locs a) (dd_locs b) && list_eqb (argdef_eqb descs) (dd_args a) (dd_args b).
+  list_eqb String.eqb (dd_locs a) (dd_locs b) && list_eqb (argdef_eqb descs) (dd_args a) (dd_args b) &&
+  Bool.eqb (dd_repeatable a) (dd_repeatable b).
 
 Definition subset (a b : list string) : bool := forallb (fun x => str_mem x b) a.
 Definition set_eqb (a b : list string) : bool := subset a b && subset b a.
@@ -125,6 +126,7 @@ Definition incompatible (a b : definition) : bool :=
   end.
 
 Definition dirdefs_incompatible (a b : dirdef) : bool :=
+  negb (Bool.eqb (dd_repeatable a) (dd_repeatable b)) ||
   negb (set_eqb (executable_locs (dd_locs a)) (executable_locs (dd_locs b))) ||
   argdefs_differ (negb (dd_builtin a || dd_builtin b)) (dd_args a) (dd_args b).
 
